@@ -17,7 +17,7 @@ RULE = ("complete products over explicit alphabets: header fields (version x fla
         "application x identifiers, int and bytes forms; quick = complete pairwise-with-all-flags "
         "product, thorough = full product); generic AVPs code x 256 flag bytes x vendor x data length "
         "0..9 x data form; every dictionary class x every domain value; all AVP sequences of length "
-        "<= 3 (quick) / <= 4 (thorough) over a 12-letter alphabet x 6 construction paths (constructor, append, extend, list assignment, list assignment over existing content, cleanup + extend); Grouped "
+        "<= 3 (quick) / <= 4 (thorough) over a 12-letter alphabet x 8 construction paths (constructor, append, extend, list assignment, list assignment over existing content, cleanup + extend, DiameterMessage.convert and its source); Grouped "
         "chains of depth <= 3 / <= 5 with every vendor pattern; typed command classes. A case is one "
         "(content, construction path); distinct by construction; non-trivial = has at least one AVP or "
         "a non-default header field")
@@ -77,6 +77,12 @@ def check_avp(rep, a, part):
     try:
         got = obj.dump()
         got2 = bytes(obj)
+        from bromelia.base import DiameterAVP
+        conv = DiameterAVP.convert(obj).dump()
+        if conv != got:
+            rep.violation(f"C01:{part}:{avp_label(a)}:convert-differs",
+                          f"DiameterAVP.convert({a.describe()}) dumps {conv.hex()}, the AVP itself {got.hex()}",
+                          {"part": "avp", "avp": a.describe()})
     except BaseException as e:  # noqa
         rep.violation(f"C01:{part}:{avp_label(a)}:dump-raises-{type(e).__name__}",
                       f"{a.describe()} was built but dump() raised {type(e).__name__}: {e}",
@@ -173,6 +179,15 @@ def build_message(hdr, avps, path, forms="int"):
         m.extend([a.build() for a in avps])
         m.cleanup()
         m.extend(objs)
+    elif path == "convert":
+        # DiameterMessage.convert(): a generic message built from another message
+        src = DiameterMessage(header=h, avps=objs)
+        return DiameterMessage.convert(src)
+    elif path == "convert-source":
+        # ... and the source message must still serialise to its own content afterwards
+        src = DiameterMessage(header=h, avps=objs)
+        DiameterMessage.convert(src)
+        return src
     else:
         raise ValueError(path)
     return m
@@ -292,7 +307,8 @@ def part_sequences(rep, arg):
             if idx % nk != k:
                 continue
             avps = [A[i] for i in seq]
-            for path in ("ctor", "append", "extend", "setter", "setter-over-content", "cleanup-extend"):
+            for path in ("ctor", "append", "extend", "setter", "setter-over-content", "cleanup-extend", "convert",
+                         "convert-source"):
                 check_message(rep, hdr, avps, path, "seq")
                 n += 1
     rep.add(evaluations=n, distinct=n, sequence_cases=n)
